@@ -29,11 +29,13 @@ def shards(tier):
         return [dict(kind='kc', n=1920, parts=12, timeout=900),
                 dict(kind='foreign', n=800, parts=4, timeout=900),
                 dict(kind='ftraj', n=240, parts=4, timeout=900),
-                dict(kind='midpoint', n=400, parts=4, timeout=900)]
+                dict(kind='midpoint', n=400, parts=4, timeout=900),
+                dict(kind='swarm', n=24, parts=4, timeout=900)]
     return [dict(kind='kc', n=48000, parts=12, timeout=3400),
             dict(kind='foreign', n=16000, parts=4, timeout=3400),
             dict(kind='ftraj', n=6000, parts=4, timeout=3400),
-            dict(kind='midpoint', n=12000, parts=4, timeout=3400)]
+            dict(kind='midpoint', n=12000, parts=4, timeout=3400),
+            dict(kind='swarm', n=600, parts=4, timeout=3400)]
 
 
 def setup(ctx):
@@ -44,6 +46,8 @@ def setup(ctx):
     ctx.hist = []
 
     def post(tok, a, k, res, exc):
+        if getattr(ctx, 'no_step_bound', False):
+            return          # several ranks (threads) share this recorder
         if exc is None:
             new_center, distances, assignments, center_inds = res
             ctx.hist.append((int(center_inds[-1]), float(distances.max()),
@@ -79,6 +83,8 @@ def run_case(ctx, kind, rng, idx):
         return run_ftraj(ctx, rng, idx)
     if kind == 'midpoint':
         return run_midpoint(ctx, rng, idx)
+    if kind == 'swarm':
+        return run_swarm(ctx, rng, idx)
     small = rng.random() < 0.35
     X, info = cc.gen_data(rng, nmax=13 if small else 60)
     n = len(X)
@@ -637,3 +643,77 @@ def run_midpoint(ctx, rng, idx):
                               if a[2].shape == b[2].shape else -1, k_ulp))
     if abs(k_ulp) <= 4:
         ctx.nontriv('midpoint', X.tobytes(), n_clusters, mname)
+
+
+def run_swarm(ctx, rng, idx):
+    """The process is one rank of a multi-rank MPI world, but the caller
+    clusters its *own* data serially (mpi_mode=False, in any falsy spelling,
+    function and estimator form): the result is the serial k-centers of that
+    rank's data and no collective is entered."""
+    from mpi4py import MPI
+    size = int(rng.integers(2, 5))
+    mname = ['euclidean', 'manhattan'][int(rng.integers(0, 2))]
+    data, exp, ks, cuts = [], [], [], []
+    for r in range(size):
+        X, _ = cc.gen_data(rng, nmax=40, nmin=4, dtype=np.float64)
+        k = int(rng.integers(1, min(len(X), 6) + 1))
+        ref = cc.ref_metric(mname)
+        cut = None if rng.random() < 0.6 else float(
+            ref(X, X[0]).max() * rng.uniform(0.2, 0.7))
+        data.append(X)
+        ks.append(k)
+        cuts.append(cut)
+        ctx.hist = []
+        exp.append(kcenters.kcenters(X, mname, n_clusters=k, dist_cutoff=cut))
+    flag = [False, np.False_, 0][int(rng.integers(0, 3))]
+    ctx.describe({'world': size, 'metric': mname, 'mpi_mode': repr(flag),
+                  'n': [len(x) for x in data], 'k': ks, 'cutoffs': cuts})
+
+    def rank_fn(r):
+        X = data[r]
+        out = {}
+        res = kcenters.kcenters(X.copy(), mname, n_clusters=ks[r],
+                                dist_cutoff=cuts[r], mpi_mode=flag)
+        out['fn'] = (list(res.center_indices), np.asarray(res.assignments),
+                     np.asarray(res.distances))
+        if cuts[r] is None:
+            e = kcenters.KCenters(mname, n_clusters=ks[r], mpi_mode=flag)
+        else:
+            e = kcenters.KCenters(mname, n_clusters=ks[r],
+                                  cluster_radius=cuts[r], mpi_mode=flag)
+        e.fit(X.copy())
+        out['est'] = (list(e.center_indices_), np.asarray(e.labels_),
+                      np.asarray(e.distances_))
+        return out
+    ctx.hist = []
+    ctx.no_step_bound = True
+    try:
+        world, results, errors = MPI.run_world(size, rank_fn, seed=int(
+            rng.integers(0, 2 ** 31)))
+    finally:
+        ctx.no_step_bound = False
+    ctx.count('stop_rules_checked')
+    ctx.count('swarm_worlds')
+    if any(e is not None for e in errors):
+        e = [x for x in errors if x is not None][0]
+        ctx.violation('kcenters.swarm.raised', '%s' % (str(e)[:300],))
+        return
+    ncoll = len([ev for ev in getattr(world, 'log', [])
+                 if ev and ev[0] not in ('start', 'end')]) \
+        if hasattr(world, 'log') else 0
+    for r, out in enumerate(results):
+        e_ci = [int(i) for i in exp[r].center_indices]
+        for form in ('fn', 'est'):
+            ci, lab, dist = out[form]
+            if any(isinstance(c, tuple) for c in ci) or \
+                    [int(c) for c in ci] != e_ci or \
+                    not np.array_equal(lab, exp[r].assignments) or \
+                    not np.allclose(dist, exp[r].distances, rtol=1e-12,
+                                    atol=0):
+                ctx.violation(
+                    'kcenters.swarm.not-serial[%s]' % form,
+                    'rank %d of %d with mpi_mode=%r: centers %s, serial '
+                    'k-centers of the same data gives %s' % (
+                        r, size, flag, list(ci)[:6], e_ci[:6]))
+                return
+    ctx.nontriv('swarm', size, tuple(len(x) for x in data), repr(flag))
